@@ -420,7 +420,8 @@ def main(tier, seed):
         if name in rotating or tier == "thorough":
             # signed types only: for unsigned arrays `x - y` wraps around (numpy's own semantics), so every body that takes
             # |x - y| is outside its closed form there - unsigned vectors are not in the judged domain (DESIGN section 6)
-            fs += [("int32", lambda v: np.array(v, dtype=np.int32)), ("int16", lambda v: np.array(v, dtype=np.int16))]
+            # (and no 8/16-bit types: numpy promotes them to float32 inside fabs / log / sqrt, i.e. single-precision results)
+            fs += [("int32", lambda v: np.array(v, dtype=np.int32))]
             def strided(v):
                 w = np.full(2 * len(v) + 1, 3.25); w[1::2] = v
                 return w[1::2]
